@@ -239,36 +239,207 @@ def run(repo: Repo, L: Ledger, tier: str):
     _prefix_copies(repo, L)
 
 
+def _unloc_summary(repo, namer, meth, depth=0, _memo=None):
+    """Effect of a ScaffoldNamer method on the pending-unloc list, as an ordered list of (event, must) with
+    event in {'flush','reset','label'}.  Raises AnalysisError for any use of the list outside the recognised forms."""
+    _memo = {} if _memo is None else _memo
+    if meth.short in _memo:
+        return _memo[meth.short]
+    if depth > 3:
+        raise AnalysisError(f"{meth.short}: unloc effects nested too deep")
+    out = []
+    has_return_before = []
+
+    def visit(stmts, must):
+        for st in stmts:
+            if isinstance(st, ast.FunctionDef | ast.AsyncFunctionDef | ast.ClassDef):
+                continue
+            if isinstance(st, ast.If | ast.For | ast.While | ast.With | ast.Try):
+                # the header expression may itself contain calls
+                hdr = st.test if isinstance(st, ast.If | ast.While) else st.iter if isinstance(st, ast.For) else None
+                if hdr is not None:
+                    leaf(hdr, must)
+                for blk in ("body", "orelse", "finalbody"):
+                    visit(getattr(st, blk, []) or [], must and isinstance(st, ast.With))
+                for h in getattr(st, "handlers", []) or []:
+                    visit(h.body, False)
+                continue
+            if isinstance(st, ast.Return):
+                has_return_before.append(len(out))
+                if st.value is not None:
+                    leaf(st.value, must)
+                continue
+            leaf(st, must)
+
+    def leaf(node, must):
+        must = must and not has_return_before
+        # assignment to the list
+        if isinstance(node, ast.Assign | ast.AnnAssign | ast.AugAssign):
+            tgts = node.targets if isinstance(node, ast.Assign) else [node.target]
+            if any(norm(t) == "self.unloc_scaffolds" for t in tgts):
+                v = getattr(node, "value", None)
+                if isinstance(node, ast.AugAssign) or not (isinstance(v, ast.List) and not v.elts or isinstance(v, ast.Call) and dotted(v.func) == "list" and not v.args):
+                    raise AnalysisError(f"{meth.short}: pending-unloc list assigned '{norm(node)[:60]}': form not understood")
+                out.append(("reset", must))
+                return
+        for c in sorted([x for x in [node, *walk_shallow(node)] if isinstance(x, ast.Call)], key=lambda x: (x.end_lineno, x.end_col_offset)):
+            if isinstance(c.func, ast.Attribute) and norm(c.func.value) == "self.unloc_scaffolds":
+                if c.func.attr == "append":
+                    out.append(("label", must))
+                elif c.func.attr == "clear":
+                    out.append(("reset", must))
+                else:
+                    raise AnalysisError(f"{meth.short}: pending-unloc list used as '{norm(c)[:60]}': form not understood")
+                continue
+            passes = any(norm(a) == "self.unloc_scaffolds" for a in [*c.args, *[k.value for k in c.keywords]])
+            if isinstance(c.func, ast.Attribute) and is_name(c.func.value, "self") and c.func.attr in namer.methods:
+                callee = namer.methods[c.func.attr]
+                if passes:
+                    if c.func.attr != "rename_by_size":
+                        raise AnalysisError(f"{meth.short}: pending-unloc list handed to '{c.func.attr}': form not understood")
+                    out.append(("flush", must))
+                elif callee is not meth:
+                    for ev, m2 in _unloc_summary(repo, namer, callee, depth + 1, _memo):
+                        out.append((ev, must and m2))
+            elif passes:
+                raise AnalysisError(f"{meth.short}: pending-unloc list handed to '{norm(c.func)}': form not understood")
+        # any other mention
+        mentions = [x for x in [node, *ast.walk(node)] if isinstance(x, ast.Attribute) and x.attr == "unloc_scaffolds"]
+        handled = 0
+        for x in mentions:
+            par = getattr(x, "_parent", None)
+            if isinstance(par, ast.Attribute) and par.attr in ("append", "clear"):
+                handled += 1
+            elif isinstance(par, ast.Call) and x in par.args:
+                handled += 1
+            elif isinstance(par, ast.Assign | ast.AnnAssign) and isinstance(x.ctx, ast.Store):
+                handled += 1
+        if handled != len(mentions):
+            raise AnalysisError(f"{meth.short}: pending-unloc list used in '{norm(node)[:60]}': form not understood")
+
+    _memo[meth.short] = []  # recursion guard
+    visit(meth.node.body, True)
+    _memo[meth.short] = out
+    return out
+
+
 def _unloc_flush(repo, L):
-    """R5: the unlocs of every Pretext scaffold — including the last one — are renumbered by size: in the scaffold loop of the
-    lookup function the renumbering call comes after the scaffold's pieces were labelled, on every normal path of an iteration"""
+    """R5: the unlocs of every Pretext scaffold — including the last one — are renumbered by size after all of its pieces were
+    labelled and trimmed, on their own.  Decided as a typestate over the namer's pending-unloc list along every path of the
+    remapping entry point (two iterations of the scaffold loop): label / trim make the current scaffold's unlocs *unsettled*,
+    a flush settles what is in the list, a reset empties it."""
     from ..flow import PathEnum
-    from ..util import path_calls
 
     L.rule("R5", "unlocs renumbered by size once per Pretext scaffold, after its pieces are labelled")
     ba = repo.cls("BuildAssembly")
+    namer = repo.cls("ScaffoldNamer")
     fao = ba.methods.get("find_assembly_overlaps")
-    if fao is None:
-        raise AnalysisError("anchor BuildAssembly.find_assembly_overlaps vanished")
-    loops = [n for n in fao.node.body if isinstance(n, ast.For) and norm(n.iter).endswith(".scaffolds")]
-    if len(loops) != 1:
-        raise AnalysisError(f"{fao.short}: loop over the Pretext scaffolds not found")
-    ok, why, n_p = True, "", 0
-    for p in PathEnum((0, 1), exc_edges=False).block(loops[0].body):
-        if p.status == "raise":
+    entry = ba.methods.get("remap_to_input_assembly")
+    if fao is None or entry is None:
+        raise AnalysisError("anchor BuildAssembly.find_assembly_overlaps / remap_to_input_assembly vanished")
+    memo = {}
+    summ = {nm: _unloc_summary(repo, namer, m, 0, memo) for nm, m in namer.methods.items()}
+    if not any(ev == "flush" for evs in summ.values() for ev, _ in evs) or not any(ev == "label" for evs in summ.values() for ev, _ in evs):
+        raise AnalysisError("ScaffoldNamer: no method renumbers / fills the pending-unloc list: form not understood")
+    for nm, evs in summ.items():
+        for ev, must in evs:
+            if ev in ("flush", "reset") and not must:
+                raise AnalysisError(f"ScaffoldNamer.{nm}: the pending-unloc list is {ev}ed only on some paths: form not understood")
+
+    def scaffold_loop(fn):
+        return [n for n in walk_shallow(fn.node) if isinstance(n, ast.For) and norm(n.iter).endswith(".scaffolds") and any(isinstance(c, ast.Call) and isinstance(c.func, ast.Attribute) and c.func.attr in namer.methods and summ[c.func.attr] for c in ast.walk(n))]
+
+    def prim_events(fn, depth=0):
+        """list of primitive event sequences, one per path of fn (callees of BuildAssembly that reach the namer are spliced)"""
+        loops = scaffold_loop(fn)
+        pe = PathEnum((0, 1), exc_edges=False, per_loop=lambda lp: (0, 1, 2) if lp in loops else None)
+        seqs = []
+        for p in pe.function_paths(fn.node):
+            if p.status == "raise":
+                continue
+            cur = [[]]
+            for e in p.events:
+                if e.kind == "iter" and e.val[0] == "next" and e.node in loops:
+                    for sq in cur:
+                        sq.append("begin")
+                    continue
+                roots = []
+                if e.kind in ("stmt", "cond", "return"):
+                    roots = [e.node]
+                elif e.kind == "iter" and e.val in (("next", 0), ("done", 0)):
+                    roots = [e.node.iter]
+                for root in roots:
+                    if root is None:
+                        continue
+                    calls = sorted([x for x in [root, *walk_shallow(root)] if isinstance(x, ast.Call) and isinstance(x.func, ast.Attribute)], key=lambda x: (x.end_lineno, x.end_col_offset))
+                    for c in calls:
+                        at = c.func.attr
+                        recv = norm(c.func.value)
+                        if at in namer.methods and ("namer" in recv or recv == "self.scaffold_namer"):
+                            for ev, must in summ[at]:
+                                if ev == "label":  # may add: both outcomes
+                                    cur = (cur + [sq + ["label"] for sq in cur]) if not must else [sq + ["label"] for sq in cur]
+                                    cur = [list(k) for k in {tuple(sq) for sq in cur}]
+                                else:
+                                    for sq in cur:
+                                        sq.append(ev)
+                        elif at == "trim_large_overhangs":
+                            for sq in cur:
+                                sq.append("touch")
+                        elif recv == "self" and at in ba.methods and ba.methods[at] is not fn and depth < 2 and _reaches_namer(ba.methods[at]):
+                            sub = prim_events(ba.methods[at], depth + 1)
+                            cur = [list(k) for k in {tuple(sq + t) for sq in cur for t in sub}]
+                            if len(cur) > 20000:
+                                raise AnalysisError("unloc typestate: too many traces")
+            seqs.extend(cur)
+        return [list(k) for k in {tuple(sq) for sq in seqs}]
+
+    def _reaches_namer(fn):
+        return any(isinstance(c, ast.Call) and isinstance(c.func, ast.Attribute) and c.func.attr in namer.methods and summ[c.func.attr] for c in ast.walk(fn.node))
+
+    if not scaffold_loop(fao):
+        raise AnalysisError(f"{fao.short}: loop over the Pretext scaffolds that drives the namer not found")
+    traces = prim_events(entry)
+    if not any("begin" in t for t in traces):
+        raise AnalysisError(f"{entry.short}: the scaffold loop is not reached from the remapping entry point")
+    bad = None
+    seen = set()
+    for t in traces:
+        key = tuple(t)
+        if key in seen:
             continue
-        n_p += 1
-        seq = []
-        for e in p.events:
-            if e.kind in ("stmt", "cond"):
-                for c in [x for x in [e.node, *walk_shallow(e.node)] if isinstance(x, ast.Call) and isinstance(x.func, ast.Attribute)]:
-                    if c.func.attr == "label_scaffold":
-                        seq.append("label")
-                    elif c.func.attr == "rename_unlocs_by_size":
-                        seq.append("flush")
-        if p.status != "fall" or seq.count("flush") != 1 or seq[-1:] != ["flush"]:
-            ok, why = False, f"an iteration over a Pretext scaffold makes the calls {seq or 'none'} ({p.status}): the unlocs of that scaffold are not renumbered by size after its pieces were labelled — for the last scaffold of the map they never are (…_unloc_1 smaller than …_unloc_2)"
-    L.check(ok and n_p > 0, "R5", fao.short + ":unloc-flush", f"rename_unlocs_by_size() closes every iteration ({n_p} paths)", why, fao.loc(loops[0]), witness={"map": "the last Pretext scaffold is a painted chromosome with two Unloc pieces, smaller one first"})
+        seen.add(key)
+        lst, unsettled = set(), set()
+        why = None
+        for ev in t:
+            if ev == "begin":
+                lst = {"prev" if x == "cur" else x for x in lst}
+                unsettled = {"prev" if x == "cur" else x for x in unsettled}
+            elif ev == "label":
+                lst.add("cur")
+                unsettled.add("cur")
+            elif ev == "touch":
+                if "cur" in lst:
+                    unsettled.add("cur")
+            elif ev == "flush":
+                if "prev" in lst and "cur" in lst:
+                    why = "the unlocs of two different Pretext scaffolds are renumbered by size together (the pending list is not emptied between scaffolds)"
+                    break
+                unsettled -= lst
+            elif ev == "reset":
+                if unsettled & lst:
+                    why = "the pending unlocs of a Pretext scaffold are dropped before they were renumbered by size"
+                    break
+                lst = set()
+        if why is None and unsettled:
+            why = "the unlocs of a Pretext scaffold are not renumbered by size after its pieces were labelled and trimmed — for the last scaffold of the map they never are (…_unloc_1 smaller than …_unloc_2)"
+        if why:
+            bad = (why, t)
+            break
+    L.check(
+        bad is None, "R5", fao.short + ":unloc-flush", f"pending-unloc typestate holds on {len(seen)} distinct event traces of {entry.short} (2 scaffold iterations)",
+        (bad[0] + f" [trace: {' '.join(bad[1])}]") if bad else "", fao.loc(), witness={"map": "the last Pretext scaffold is a painted chromosome with two Unloc pieces, smaller one first"},
+    )
 
 
 def _prefix_copies(repo, L):
